@@ -27,7 +27,11 @@ Inductive rcase :=
 | CFromName (k : kind) (name : N) (obs : option plugin)
 | CEnable (fs sa det : list N) (fake : list (list N)) (obs : option (list N * list N))
 | CValidateCfg (fs sa det : list N) (c : caps) (obs : bool)
-| CScanPrep (c : caps) (only : option N) (obs : prep).
+| CScanPrep (c : caps) (only : option N) (obs : prep)
+(* histories on shared inputs: one list object filtered twice; intact = the caller's slice equals its pre-call copy *)
+| CFilter2 (k : kind) (input : list N) (c1 c2 : caps) (obs1 : list N) (intact1 : bool) (obs2 : list N) (intact2 : bool)
+| CFromNames2 (k : kind) (names : list N) (obs1 obs2 : option (list N)) (intact : bool)
+| CEnableTwice (fs sa det : list N) (fake : list (list N)) (obs1 obs2 : option (list N * list N)) (intact : bool).
 
 Definition names (ps : list plugin) : list N := map p_name ps.
 Definition lN_eqb := list_eqb N.eqb.
@@ -80,6 +84,29 @@ Definition case_model_ok (cs : rcase) : bool :=
       | None => false
       end
   | CScanPrep c only obs => prep_eqb (scan_prep (r_fs_names R) (r_sa_names R) (prep_cfg c only) c) obs
+  | CFilter2 k input c1 c2 obs1 i1 obs2 i2 =>
+      match plugs_at k input with
+      | Some ps =>
+          (* the model's filter is a pure function: (result, caller's list afterwards) = filter_call *)
+          let '(r1, ps1) := filter_call ps c1 in
+          let '(r2, ps2) := filter_call ps1 c2 in
+          lN_eqb (names r1) obs1 && Bool.eqb (list_eqb plugin_eqb ps1 ps) i1
+          && lN_eqb (names r2) obs2 && Bool.eqb (list_eqb plugin_eqb ps2 ps) i2
+      | None => false
+      end
+  | CFromNames2 k ns obs1 obs2 intact =>
+      let m := option_map names (from_names (names_of R k) ns) in
+      option_eqb lN_eqb m obs1 && option_eqb lN_eqb m obs2 && intact
+  | CEnableTwice fs sa det fake obs1 obs2 intact =>
+      match mk_cfg fs sa det fake with
+      | Some cfg =>
+          let view := option_map (fun c' => (names (cfg_fs c'), names (cfg_sa c'))) in
+          let pe := option_eqb (fun a b => lN_eqb (fst a) (fst b) && lN_eqb (snd a) (snd b)) in
+          let r1 := enable_required_extractors (r_fs_names R) (r_sa_names R) cfg in
+          let r2 := match r1 with Some c1 => enable_required_extractors (r_fs_names R) (r_sa_names R) c1 | None => None end in
+          pe (view r1) obs1 && pe (view r2) obs2 && intact
+      | None => false
+      end
   end.
 
 (* ---------------------------------------------------------------- spec on the observed output *)
@@ -141,6 +168,19 @@ Definition case_spec_ok (cs : rcase) : bool :=
       (* a scan configured from the filtered set never fails requirement validation (no refutation on
          file, so the oracle claims it for every capability tuple) *)
       prep_eqb obs PrepOk
+  | CFilter2 k input c1 c2 obs1 i1 obs2 i2 =>
+      (* every call, whatever was done with the list before, keeps exactly the satisfied plugins of the ORIGINAL
+         list, and leaves the caller's list alone *)
+      match plugs_at k input with
+      | Some ps => lN_eqb obs1 (names (filter (sat c1) ps)) && i1 && lN_eqb obs2 (names (filter (sat c2) ps)) && i2
+      | None => false
+      end
+  | CFromNames2 k ns obs1 obs2 intact =>
+      option_eqb lN_eqb obs1 obs2 && intact
+      && match obs1 with Some _ => forallb (is_key (names_of R k)) ns | None => negb (forallb (is_key (names_of R k)) ns) end
+  | CEnableTwice fs sa det fake obs1 obs2 intact =>
+      (* idempotent, inputs untouched *)
+      option_eqb (fun a b => lN_eqb (fst a) (fst b) && lN_eqb (snd a) (snd b)) obs1 obs2 && intact
   end.
 
 Fixpoint bad_indices {A} (ok : A -> bool) (l : list A) (i : N) : list N :=
